@@ -516,6 +516,40 @@ def _class_level(info, ctx, attr: str) -> bool:
 
 
 # --------------------------------------------------------------------------- R04.5
+def _identity_index_helper(ctx, u, call: ast.Call) -> bool:
+    """``helper(seq, item)``: a plain library function whose every non-constant return is the loop position of
+    ``for pos, cand in enumerate(seq)`` under the guard ``cand is item``; its constant returns say "not found"."""
+    res = ctx.pkg.resolve_expr_global(u.module, call.func)
+    t = ctx.pkg.lib_unit(res.qual) if res is not None and getattr(res, "qual", None) else None
+    if t is None or t.kind != "sync" or len(t.param_names()) != 2:
+        return False
+    seq, item = t.param_names()
+    parents = {}
+    for x in ast.walk(t.node):
+        for c in ast.iter_child_nodes(x):
+            parents[id(c)] = x
+    found = False
+    for r in own_nodes(t.node):
+        if not isinstance(r, ast.Return):
+            continue
+        if r.value is None or isinstance(r.value, ast.Constant) or (isinstance(r.value, ast.UnaryOp) and isinstance(r.value.operand, ast.Constant)):
+            continue
+        if not isinstance(r.value, ast.Name):
+            return False
+        guard = parents.get(id(r))
+        loop = parents.get(id(guard)) if guard is not None else None
+        ok = isinstance(guard, ast.If) and isinstance(guard.test, ast.Compare) and len(guard.test.ops) == 1 \
+            and isinstance(guard.test.ops[0], ast.Is) and {norm(guard.test.left), norm(guard.test.comparators[0])} >= {item} \
+            and isinstance(loop, ast.For) and isinstance(loop.iter, ast.Call) and norm(loop.iter.func) == "enumerate" \
+            and len(loop.iter.args) == 1 and norm(loop.iter.args[0]) == seq and isinstance(loop.target, ast.Tuple) \
+            and len(loop.target.elts) == 2 and norm(loop.target.elts[0]) == r.value.id \
+            and norm(loop.target.elts[1]) in {norm(guard.test.left), norm(guard.test.comparators[0])}
+        if not ok:
+            return False
+        found = True
+    return found
+
+
 def r04_5(ctx) -> None:
     u = ctx.inlined(ctx.unit("itertools.tee_peer"))
     cfg = cfg_of(u)
@@ -579,6 +613,12 @@ def r04_5(ctx) -> None:
                                and buffer_name in {x.id for x in ast.walk(c) if isinstance(x, ast.Name)} for c in conds) \
                                 and peers_name in {x.id for x in ast.walk(g.generators[0].iter) if isinstance(x, ast.Name)}:
                             by_identity = True
+                    # (iii) index found by a library helper that searches by identity, used under a "found" guard
+                    if isinstance(v, ast.Call) and len(v.args) == 2 and not v.keywords and norm(v.args[0]) == peers_name \
+                            and norm(v.args[1]) == buffer_name and _identity_index_helper(ctx, u, v) \
+                            and any(p.kind == "branch" and idx_expr.id in {x.id for x in ast.walk(p.ast) if isinstance(x, ast.Name)}
+                                    for p in _pred_chain(r, 4)):
+                        by_identity = True
             ctx.check(by_identity, "R04.5", u, r,
                       "the child's own buffer is removed by identity (index found with `is`)", node=r)
         ctx.check(bool(removals), "R04.5", u, f"finally of tee_peer ({tag or 'normal'} exit)",
@@ -614,6 +654,13 @@ def r04_5(ctx) -> None:
                             and a.ast.left.id in index_names and norm(a.ast.comparators[0]) == "None":
                         none_edge = "t" if isinstance(a.ast.ops[0], ast.Is) else "f"
                         return lab != none_edge  # index is None: not found
+                    if a.kind == "branch" and isinstance(a.ast, ast.Compare) and isinstance(a.ast.left, ast.Name) \
+                            and a.ast.left.id in index_names and len(a.ast.ops) == 1 and norm(a.ast.comparators[0]) in ("0", "-1"):
+                        # ``idx >= 0`` / ``idx < 0`` / ``idx != -1`` / ``idx == -1``: the edge that says "not found"
+                        op, c = type(a.ast.ops[0]).__name__, norm(a.ast.comparators[0])
+                        missing = {("GtE", "0"): "f", ("Lt", "0"): "t", ("NotEq", "-1"): "f", ("Eq", "-1"): "t", ("Gt", "-1"): "f"}.get((op, c))
+                        if missing is not None:
+                            return lab != missing
                     return True
 
                 # where the list is actually looked at: the branch, or the store of the local it tests
